@@ -46,6 +46,10 @@ if not hasattr(D, "async_execute"):
     MISSING.append("dag.async_execute")
 
 
+ENTER_TIMEOUT = float(os.environ.get("VERIF_ENTER_TIMEOUT", "2.0"))
+RUN_TIMEOUT = float(os.environ.get("VERIF_RUN_TIMEOUT", "15.0"))
+
+
 class NodeBoom(Exception):
     """Raised by a generated node function that the case marks as failing."""
 
@@ -81,6 +85,14 @@ class Ctl:
     def ev(self, *e):
         with self.lock:
             self.trace.append(e)
+
+    def give_up(self, why):
+        """the controller cannot drive this run: stop gating so that it ends quickly"""
+        if self.broken is None:
+            self.broken = why
+        self.free_run = True
+        for g in list(self.gates.values()):
+            g.set()
 
     def quiet(self):
         with self.lock:
@@ -175,8 +187,8 @@ if not MISSING:
             t0 = time.time()
             while not set(ids) <= ctl.entered:
                 time.sleep(0.0002)
-                if time.time() - t0 > 20:
-                    ctl.broken = "in-flight thread nodes never entered: %r" % (sorted(set(ids) - ctl.entered),)
+                if time.time() - t0 > ENTER_TIMEOUT:
+                    ctl.give_up("in-flight thread nodes never entered: %r" % (sorted(set(ids) - ctl.entered),))
                     break
             rel = ctl.pick_release(ids, return_when)
             for r in rel:
@@ -185,7 +197,7 @@ if not MISSING:
                     ctl.gates[r].set()
             for r in rel:
                 try:
-                    futures[r].exception(timeout=20)
+                    futures[r].exception(timeout=ENTER_TIMEOUT)
                 except BaseException:  # noqa: BLE001
                     pass
         return orig_w(return_when, graph, futures, done, running, runnable)
@@ -200,8 +212,8 @@ if not MISSING:
             t0 = time.time()
             while not set(ids) <= ctl.entered:
                 await asyncio.sleep(0.0002)
-                if time.time() - t0 > 20:
-                    ctl.broken = "in-flight async nodes never entered: %r" % (sorted(set(ids) - ctl.entered),)
+                if time.time() - t0 > ENTER_TIMEOUT:
+                    ctl.give_up("in-flight async nodes never entered: %r" % (sorted(set(ids) - ctl.entered),))
                     break
             rel = ctl.pick_release(ids, return_when)
             for r in rel:
@@ -209,7 +221,7 @@ if not MISSING:
                 if r in ctl.gates:
                     ctl.gates[r].set()
             t0 = time.time()
-            while not all(futures[r].done() for r in rel) and time.time() - t0 < 20:
+            while not all(futures[r].done() for r in rel) and time.time() - t0 < ENTER_TIMEOUT:
                 await asyncio.sleep(0.0002)
         return await orig_wa(return_when, graph, futures, done, running, runnable)
 
@@ -344,33 +356,44 @@ def failing_node_of(exc):
 
 
 def run_controlled(thunk, ctl, is_async=False):
-    """run thunk() (a DAG call / executor call / setup call) under ctl; returns (status, value|exc)."""
+    """run thunk() (a DAG call / executor call / setup call) under ctl; returns (status, value|exc).
+    status: 'ok' | 'raise' | 'hang' (the call did not return within RUN_TIMEOUT: C09 watchdog)."""
     if MISSING:
         raise HarnessBroken("names not found in tawazi: %s" % MISSING)
     CUR[0] = ctl
-    try:
+    box = {}
+
+    def body():
         try:
             if is_async:
-                out = asyncio.run(thunk())
+                box["st"] = ("ok", asyncio.run(thunk()))
             else:
-                out = thunk()
-            st = ("ok", out)
+                box["st"] = ("ok", thunk())
         except BaseException as e:  # noqa: BLE001
-            if isinstance(e, (KeyboardInterrupt, SystemExit)):
-                raise
-            st = ("raise", e)
+            box["st"] = ("raise", e)
+
+    try:
+        th = threading.Thread(target=body, daemon=True)
+        th.start()
+        th.join(RUN_TIMEOUT)
+        if th.is_alive():
+            ctl.give_up(ctl.broken or "call did not return within %.0f s" % RUN_TIMEOUT)
+            th.join(3.0)
+            st = box.get("st") if not th.is_alive() else None
+            st = ("hang", st)
+        else:
+            st = box["st"]
         # release everything and wait for stragglers so that they cannot write into the next run
         for g in list(ctl.gates.values()):
             g.set()
         ctl.free_run = True
         t0 = time.time()
-        while time.time() - t0 < 10:
+        while time.time() - t0 < 5:
             if ctl.quiet():
                 break
             time.sleep(0.0005)
         time.sleep(0.001)
-        quiet = ctl.quiet()
-        if not quiet and ctl.broken is None:
+        if not ctl.quiet() and ctl.broken is None:
             ctl.broken = "stragglers did not drain"
         return st
     finally:
